@@ -20,7 +20,7 @@ pub const C09: PropDef = PropDef {
     id: "C09",
     run: run_c09,
     oracle: oracle_c09,
-    rule: "cases = (a) conformant V9 histories (C04's generator) in a strict mode that uses only losslessly re-exportable value kinds (unsigned 1/2/3/4/8/16, IPv4, IPv6, octet arrays, unknown fields, valid UTF-8 strings, protocol numbers with a named variant) and in a wide mode with every kind; (b) hostile histories of C01/C02 that still yield V9 elements. Oracle: for every V9 element, to_be_bytes() must be Ok and equal the element's input span (span from the C02 decomposition). Attribution for wide/hostile cases: the export is predicted from the input bytes flowset by flowset and field by field (widths of the template cached at that moment); the library's own value export is substituted only for value kinds named by an open finding (Duration, MAC, non-UTF-8 string, protocol number without variant); the export must equal the prediction exactly. Strict cases must hit no finding at all. non-trivial = the element has >= 1 data flowset with >= 1 record; distinct by digest.",
+    rule: "cases = (a) conformant V9 histories (C04's generator) in a strict mode that uses only losslessly re-exportable value kinds (unsigned 1/2/3/4/8/16, IPv4, IPv6, octet arrays, unknown fields, valid UTF-8 strings, protocol numbers with a named variant) and in a wide mode with every kind; (b) hostile histories of C01/C02 that still yield V9 elements. Oracle: for every V9 element, to_be_bytes() must be Ok and equal the element's input span (span from the C02 decomposition). Attribution for wide/hostile cases: the export is predicted from the input bytes flowset by flowset and field by field (widths of the template cached at that moment); for value kinds named by an open finding (Duration, MAC, non-UTF-8 string, protocol number without variant) the prediction is the exact lossy form the finding describes (4-byte whole seconds, 17-character text, lossy UTF-8 conversion, 255), computed from the input bytes; the export must equal the prediction exactly. Strict cases must hit no finding at all. non-trivial = the element has >= 1 data flowset with >= 1 record; distinct by digest.",
     assumptions: &["spans come from the C02 decomposition", "the template in effect for a data flowset is reconstructed from the template records the library itself reported (and its cache before the call)"],
 };
 
@@ -83,10 +83,43 @@ fn predict_field(o: &mut Outcome, proto: &str, v: &FieldValue, inp: &[u8]) -> Re
     };
     match sig {
         Some(s) => {
-            o.hit(s);
-            match own {
-                Ok(b) => Ok(b),
-                Err(_) => Err("EXPORT-ERR".into()),
+            // a listed finding forgives exactly the lossy export it describes, computed here
+            // from the input bytes - not whatever the library writes for that value kind
+            let listed: Result<Vec<u8>, ()> = match v {
+                // durations are written as 4-byte whole seconds (an error beyond u32)
+                FieldValue::Duration(d) => u32::try_from(d.as_secs()).map(|x| x.to_be_bytes().to_vec()).map_err(|_| ()),
+                // MAC addresses are written as their 17-character text form
+                FieldValue::MacAddr(_) => Ok(inp.iter().map(|b| format!("{:02X}", b)).collect::<Vec<_>>().join(":").into_bytes()),
+                // invalid UTF-8 is written after lossy conversion
+                FieldValue::String(_) => Ok(String::from_utf8_lossy(inp).as_bytes().to_vec()),
+                // protocol numbers without a variant are written as 255
+                FieldValue::ProtocolType(_) => Ok(vec![255]),
+                // signed integers are held as i32 and written in 4 bytes
+                FieldValue::DataNumber(DataNumber::I32(_)) => Ok(match inp.len() {
+                    1 => i32::from(inp[0] as i8).to_be_bytes().to_vec(),
+                    2 => i32::from(i16::from_be_bytes([inp[0], inp[1]])).to_be_bytes().to_vec(),
+                    n if n >= 4 => inp[n - 4..].to_vec(),
+                    _ => inp.to_vec(),
+                }),
+                _ => Err(()),
+            };
+            match (own, listed) {
+                (Ok(b), Ok(l)) if b == l => {
+                    o.hit(s);
+                    Ok(b)
+                }
+                (Err(_), Err(())) => {
+                    o.hit(s);
+                    Err("EXPORT-ERR".into())
+                }
+                (own, listed) => Err(format!(
+                    "value {:?} decoded from input bytes {} re-exports as {:?}; the listed finding {} only explains {:?}",
+                    v,
+                    hex(&inp[..inp.len().min(32)]),
+                    own.map(|b| hex(&b[..b.len().min(32)])).map_err(|e| e.to_string()),
+                    s,
+                    listed.map(|b| hex(&b[..b.len().min(32)]))
+                )),
             }
         }
         None => Err(format!(
